@@ -1104,9 +1104,10 @@ DLLIMPORT cfg_value_t *cfg_setopt(cfg_t *cfg, cfg_opt_t *opt, const char *value)
 				free(val->section);
 				return NULL;
 			}
-		}
-		if (!is_set(CFGF_DEFINIT, opt->flags))
+
+			/* a new section starts out with its declared defaults */
 			cfg_init_defaults(val->section);
+		}
 		break;
 
 	case CFGT_BOOL:
